@@ -51,17 +51,26 @@ package notifyf
 //@   let k9 = decStrK(src, q8, 9, false, d0)
 //@   let q9 = (k9 == 0 ? decStrP(src, q8, 9, d0) : seekP(src, q8, 9, d0))
 //@   let ok9 = ok8 && (k9 == 0 || (k9 == 1 && (seekK(src, q8, 9, d0) == 2 || (seekK(src, q8, 9, d0) == 1 && seekCanon(src, q8, 9, d0)))))
-//@   opaque [C04] *
+//@   opaque [C04,C06] *
 //@   perreturn
 //@   ensures [C04] (ok1 && err == nil) ==> st.EType == (k1 == 0 ? decIntV(src, q0, 1, d0) : old(st.EType))
+//@   ensures [C06] (k1 == 2) ==> err != nil
 //@   ensures [C04] (ok2 && err == nil) ==> st.SApp == (k2 == 0 ? decStrV(src, q1, 2, d0) : old(st.SApp))
+//@   ensures [C06] (ok1 && k2 == 2) ==> err != nil
 //@   ensures [C04] (ok3 && err == nil) ==> st.SSet == (k3 == 0 ? decStrV(src, q2, 3, d0) : old(st.SSet))
+//@   ensures [C06] (ok2 && k3 == 2) ==> err != nil
 //@   ensures [C04] (ok4 && err == nil) ==> st.SContainer == (k4 == 0 ? decStrV(src, q3, 4, d0) : old(st.SContainer))
+//@   ensures [C06] (ok3 && k4 == 2) ==> err != nil
 //@   ensures [C04] (ok5 && err == nil) ==> st.SServer == (k5 == 0 ? decStrV(src, q4, 5, d0) : old(st.SServer))
+//@   ensures [C06] (ok4 && k5 == 2) ==> err != nil
 //@   ensures [C04] (ok6 && err == nil) ==> st.SMessage == (k6 == 0 ? decStrV(src, q5, 6, d0) : old(st.SMessage))
+//@   ensures [C06] (ok5 && k6 == 2) ==> err != nil
 //@   ensures [C04] (ok7 && err == nil) ==> st.SThreadId == (k7 == 0 ? decStrV(src, q6, 7, d0) : old(st.SThreadId))
+//@   ensures [C06] (ok6 && k7 == 2) ==> err != nil
 //@   ensures [C04] (ok8 && err == nil) ==> st.ELevel == (k8 == 0 ? decIntV(src, q7, 8, d0) : old(st.ELevel))
+//@   ensures [C06] (ok7 && k8 == 2) ==> err != nil
 //@   ensures [C04] (ok9 && err == nil) ==> st.SNodeName == (k9 == 0 ? decStrV(src, q8, 9, d0) : old(st.SNodeName))
+//@   ensures [C06] (ok8 && k9 == 2) ==> err != nil
 //@   ensures [C04] ok9 ==> (err == nil && readBuf.buf.i == q9)
 //@   safety [C05]
 //
@@ -92,4 +101,23 @@ package notifyf
 //@   perreturn
 //@   modifies buf.buf.bytes
 //@   ensures [C03] err == nil && buf.buf.bytes == pre
+//@   safety [C03]
+//
+//@ func (*ReportInfo).WriteBlock
+//@   requires st != nil && validB(buf) && len(st.SApp) < 4294967296 && len(st.SSet) < 4294967296 && len(st.SContainer) < 4294967296 && len(st.SServer) < 4294967296 && len(st.SMessage) < 4294967296 && len(st.SThreadId) < 4294967296 && len(st.SNodeName) < 4294967296
+//@   let e0 = buf.buf.bytes ++ head(StructBegin, tag)
+//@   let e1 = e0 ++ encInt32(1, st.EType)
+//@   let e2 = e1 ++ encString(2, st.SApp)
+//@   let e3 = e2 ++ encString(3, st.SSet)
+//@   let e4 = e3 ++ encString(4, st.SContainer)
+//@   let e5 = e4 ++ encString(5, st.SServer)
+//@   let e6 = e5 ++ encString(6, st.SMessage)
+//@   let e7 = (st.SThreadId != "" ? e6 ++ encString(7, st.SThreadId) : e6)
+//@   let e8 = e7 ++ encInt32(8, st.ELevel)
+//@   let e9 = (st.SNodeName != "" ? e8 ++ encString(9, st.SNodeName) : e8)
+//@   let pre = e9 ++ head(StructEnd, 0)
+//@   opaque head encInt8 encInt16 encInt32 encInt64 encString encBool
+//@   perreturn
+//@   modifies buf.buf.bytes
+//@   ensures [C03] result == nil && buf.buf.bytes == pre
 //@   safety [C03]
